@@ -164,6 +164,9 @@ class Runner:
         self.violations = []
         self.trivial = []
         self.canaries = 0
+        self.dead_paths = []
+        self.live_outcomes = set()
+        self.dead_outcomes = set()
         self.known_hits = []
 
     def hints_for(self, E, ob):
@@ -308,8 +311,16 @@ class Runner:
         for (kind, _, E, ob), r in zip(WORK, res):
             if kind == "canary":
                 self.canaries += 1
-                if r.get("verdict") == "unsat":
-                    self.problems.append({"function": E.c.qual, "kind": "vacuity", "detail": f"canary: the path condition of path {ob.env.get('trail')} (up to {ob.id} {ob.where}) is contradictory"})
+                if r.get("verdict") == "vacuous":
+                    self.problems.append({"function": E.c.qual, "kind": "vacuity", "detail": f"canary: the ASSUMPTIONS on path {ob.env.get('trail')} (up to {ob.id} {ob.where}) are contradictory without any branch condition"})
+                elif r.get("verdict") == "dead":
+                    self.dead_paths.append({"function": E.c.qual, "path": ob.env.get("trail"), "up_to": f"{ob.id} {ob.where}"})
+                    if r.get("outcome"):
+                        self.dead_outcomes.add((E.c.qual, r["outcome"]))
+                elif r.get("verdict") == "sat" and r.get("outcome"):
+                    self.live_outcomes.add((E.c.qual, r["outcome"]))
+                elif "error" in r or r.get("killed"):
+                    self.problems.append({"function": E.c.qual, "kind": "checker-error", "detail": "canary failed: " + str(r)[:300]})
                 continue
             if r.get("killed"):
                 self.problems.append({"function": ob.id, "where": ob.where, "kind": "unknown", "detail": f"solver killed after {r['secs']}s (hard budget)"})
@@ -348,6 +359,11 @@ class Runner:
                     if sr["secs"] > 3:
                         print("SLOW", ob.id, ob.where, sr["secs"], sr["detail"])
         self.obligations = obligations + self.trivial
+        # an outcome a contract lists under `cover` must be reached by at least one path whose condition is satisfiable
+        for c in contracts:
+            for want in c.cover:
+                if (c.qual, want) in self.dead_outcomes and (c.qual, want) not in self.live_outcomes:
+                    self.problems.append({"function": c.qual, "kind": "vacuity", "detail": f"outcome {want} is only reached on paths whose condition is contradictory"})
         self.cm = cm
         self.have_facts = have_facts
         return self.report()
@@ -431,6 +447,7 @@ class Runner:
                 "backends": sorted({b for o in self.obligations for b in o["backends"]}),
                 "samples": [{"id": o["id"], "status": o["status"], "backends": o["backends"]} for o in self.obligations[:6]],
                 "vacuity_canaries_checked": self.canaries,
+                "dead_paths": self.dead_paths[:40],  # explored paths whose branch conditions cannot occur (e.g. the failing side of an assert)
                 "dropped_by_extraction": DROPPED,
                 "not_decided": list(getattr(cm, "NOT_DECIDED", [])),
                 "bounded": list(getattr(cm, "BOUNDED", [])),
@@ -455,12 +472,27 @@ def work_item(i):
     kind, runner, E, ob = WORK[i]
     try:
         if kind == "canary":
-            pc = smt.strip_q(smt.flatten_hyps(ob.pc))
-            s = z3.Solver()
-            s.set("rlimit", 5_000_000)
-            s.set("timeout", 20_000)
-            s.add(*pc)
-            return {"verdict": str(s.check())}
+            # can `False` be proved from the path condition with the SAME machinery that discharges obligations (instances of quantified
+            # hypotheses, well-formedness instances, theory axioms, then the quantified query)? If so everything on this path is vacuous.
+            hints = runner.hints_for(E, ob)([])
+            stages = smt.build_stages(smt.flatten_hyps(ob.pc), z3.BoolVal(False), [], ob.idx, hints, E.c.float)
+            def refutable(stages_):
+                for label, asserts in stages_:
+                    r, _ = smt.guarded_check(asserts, 5_000_000, 15_000, None)
+                    if r == "unsat":
+                        return True
+                return False
+
+            if not refutable(stages):
+                return {"verdict": "sat", "outcome": ob.env.get("outcome")}
+            # contradictory: a DEAD path (the branch conditions taken cannot occur together with what is known -- e.g. the failing side of an
+            # assert, a division by zero the precondition excludes) is what a proof looks like; VACUOUS is when the assumptions alone
+            # (preconditions, axioms, invariants assumed at loop heads, callee postconditions, heap facts) are contradictory without any
+            # branch condition
+            bids = ob.env.get("branch_ids", set())
+            assumed = [h for h in ob.pc if h.get_id() not in bids]
+            stages2 = smt.build_stages(smt.flatten_hyps(assumed), z3.BoolVal(False), [], ob.idx, hints, E.c.float)
+            return {"verdict": "vacuous" if refutable(stages2) else "dead", "outcome": ob.env.get("outcome")}
         tmpl, terms = cex_template(E, ob) if ob.kind != "lemma" else ({}, {})
         hint_fn = runner.hints_for(E, ob)
         subs = smt.split_goal(smt.flatten_hyps(ob.pc), ob.goal, [])
